@@ -47,6 +47,8 @@ class PipeConnection(secsgem.common.Connection):
         self.on_disable = None
         self.fail_sends = False            # make send_data report failure (peer gone)
         self.handler_errors = []
+        self._f_gen, self._f_pos, self._f_cache = -1, 0, []
+        self._a_idx, self._a_buf, self._a_cache = 0, {}, []
 
     # ------------------------------------------------------------- Connection API (used by secsgem)
     def enable(self):
@@ -168,22 +170,28 @@ class PipeConnection(secsgem.common.Connection):
         return self._inbox.empty()
 
     def frames(self):
-        """HSMS frames written on the current link generation (complete ones)."""
+        """HSMS frames written on the current link generation (complete ones). Parsed incrementally: checks poll this."""
         with self._lock:
-            data = bytes(self.sent)
-        return wire.parse_hsms_stream(data)[0]
+            if self._f_gen != self.generation or self._f_pos > len(self.sent):
+                self._f_gen, self._f_pos, self._f_cache = self.generation, 0, []
+            data = bytes(self.sent[self._f_pos:])
+            if data:
+                new, rest = wire.parse_hsms_stream(data)
+                self._f_pos += len(data) - len(rest)
+                self._f_cache.extend(new)
+            return list(self._f_cache)
 
     def all_frames(self):
-        """(generation, Frame) for every complete frame ever written, per generation."""
+        """(generation, Frame) for every complete frame ever written, per generation (incremental as well)."""
         with self._lock:
-            log = list(self.sent_log)
-        out = []
-        gens = sorted({g for _, g, _ in log})
-        for g in gens:
-            data = b"".join(d for _, gg, d in log if gg == g)
-            for fr in wire.parse_hsms_stream(data)[0]:
-                out.append((g, fr))
-        return out
+            log = self.sent_log[self._a_idx:]
+            self._a_idx = len(self.sent_log)
+            for _, g, d in log:
+                buf = self._a_buf.get(g, b"") + d
+                frs, rest = wire.parse_hsms_stream(buf)
+                self._a_buf[g] = rest
+                self._a_cache.extend((g, fr) for fr in frs)
+            return list(self._a_cache)
 
     def wait_for(self, predicate, timeout=5.0, poll=0.0005):
         deadline = time.monotonic() + timeout
